@@ -7,6 +7,7 @@ import (
 	"fmt"
 	"strconv"
 	"strings"
+	"sync/atomic"
 	"time"
 
 	"github.com/LiskHQ/lisk-engine/pkg/blockchain"
@@ -30,7 +31,9 @@ type behav struct {
 	syncing   bool   // C04SYNC: forced synchroniser: the Executer's syncying flag is set, as Executer.process does around syncer.Sync
 	target    int    // >= 0: the block the peer announced (received block, answer to getLastBlock) is the one of
 	// that height although the peer's chain is longer: the peer kept growing after the announcement
-	sweep bool // not an op option: the responder serves a geometry sweep (hundreds of requests within seconds)
+	sweep    bool   // not an op option: the responder serves a geometry sweep (hundreds of requests within seconds)
+	extra    string // more connected peers, one letter each (multipeer.go)
+	mainFail bool   // `main=e`: the announcing peer answers getLastBlock with an error
 }
 
 func parseBehav(w []string) behav {
@@ -51,6 +54,10 @@ func parseBehav(w []string) behav {
 	b.force, _ = kvStr(w, "force")
 	if v, ok := kvInt(w, "target"); ok {
 		b.target = v
+	}
+	b.extra, _ = kvStr(w, "extra")
+	if v, _ := kvStr(w, "main"); v == "e" {
+		b.mainFail = true
 	}
 	// C04SYNC: options of the pseudo-property C04SYNC (c04sync.go)
 	if v, ok := kvInt(w, "restart"); ok && v == 1 {
@@ -116,7 +123,7 @@ func attackerChain(pBlocks []*blockchain.Block, bad int, static bool) ([]*blockc
 // newResponder starts a p2p connection on loopback that answers the three sync endpoints. An
 // honest responder runs the REAL handlers of a Syncer over the responder node's chain; the other
 // behaviours are served by the harness from an explicit block list.
-func newResponder(c *chains, b behav, served []*blockchain.Block) (*p2p.Connection, error) {
+func newResponder(c *chains, b behav, served []*blockchain.Block, armed *atomic.Bool) (*p2p.Connection, error) {
 	conn := p2p.NewConnection(node.NopLogger(), &p2p.Config{ChainID: c.p.Cfg.ChainID, Addresses: []string{"/ip4/127.0.0.1/tcp/0"}})
 	syncer := lsync.NewSyncer(c.p.Chain, c.p.BlockSlot(), conn, node.NopLogger(), nil, nil)
 	last := syncer.HandleRPCEndpointGetLastBlock()
@@ -173,6 +180,16 @@ func newResponder(c *chains, b behav, served []*blockchain.Block) (*p2p.Connecti
 				res = append(res, blk)
 			}
 			w.Write((&lsync.GetBlocksFromIDResponse{Blocks: res}).Encode())
+		}
+	}
+	if b.mainFail {
+		honestLast := last
+		last = func(w p2p.ResponseWriter, r *p2p.Request) {
+			if armed.Load() {
+				w.Error(errors.New("not available"))
+			} else {
+				honestLast(w, r)
+			}
 		}
 	}
 	var opts []p2p.RPCHandlerOption
@@ -456,13 +473,42 @@ func runSyncOnce(c *chains, w []string) (out string, fails []corr.Fail) {
 		} else {
 			reach = reach && refCommonHeight(c.prm.Q, int(finBefore), n, c.prm.F) >= 0
 		}
-		if omode != "none" && reach {
+		// several connected peers (multipeer.go): what the best valid answer leads to
+		expect, bannedKind := "converge", byte(0)
+		if (b.extra != "" || b.mainFail) && omode == "block" {
+			expect, bannedKind = multiPeerExpect(b)
+		}
+		if expect != "converge" {
+			bannedIPs := q.Conn.VerifC19BannedIPs()
+			culprit := false
+			for _, ip := range bannedIPs {
+				ok := false
+				for _, e := range pr.extras {
+					ok = ok || (e.ip == ip && e.kind == bannedKind)
+				}
+				if ok {
+					culprit = true
+				} else {
+					fails = append(fails, fail("c19-honest-peer-banned", "peers %q, main=e %v: the peer with address %s was banned, it served no bad data", b.extra, b.mainFail, ip))
+				}
+			}
+			if bannedKind != 0 && (syncErr == nil || !culprit) {
+				fails = append(fails, fail("c19-bad-peer-not-banned", "peers %q: the peer announcing an invalid block of top priority was not refused and banned (err=%v, banned %v)", b.extra, syncErr, bannedIPs))
+			}
+			if expect == "nopeer" && (syncErr == nil || !same(after, before)) {
+				fails = append(fails, fail("c19-no-peer-not-refused", "peers %q, main=e %v: no peer answered getLastBlock; err=%v, chain changed: %v", b.extra, b.mainFail, syncErr, !same(after, before)))
+			}
+			if (bannedKind != 0 || expect == "nopeer") && !same(after, before) {
+				fails = append(fails, fail("c19-chain-changed-without-peer", "peers %q: the chain changed although no usable peer was selected", b.extra))
+			}
+		}
+		if omode != "none" && reach && expect == "converge" {
 			if !same(after, pIDs) || syncErr != nil {
 				fails = append(fails, fail("c19-not-converged", "honest peer (tip %d) announced its block %d, fork height %d >= finalized %d, own tip %d, round length %d: %s sync ended at height %d (tip %s) err=%v instead of on the peer's chain up to the announced block",
 					c.prm.P, targetH, c.prm.F, finBefore, c.prm.Q, n, omode, tip.Height, c.token(tip.ID, extraTok), syncErr))
 			}
 			if banned {
-				fails = append(fails, fail("c19-honest-peer-banned", "the honest peer was banned"))
+				fails = append(fails, fail("c19-honest-peer-banned", "the honest peer was banned (banned addresses %v, peers %q)", q.Conn.VerifC19BannedIPs(), b.extra))
 			}
 			if len(temp) != 0 {
 				fails = append(fails, fail("c19-temp-blocks-left", "%d temp blocks left after a successful synchronisation", len(temp)))
